@@ -183,6 +183,7 @@ Definition do_write (s : st) (w : nat) (bs : bytes) : st :=
   end.
 
 (* ---- Commit ---- *)
+(* (the writer record is marked first; the fields it touches are disjoint from those of the cache transition) *)
 Definition do_commit (s : st) (w : nat) : st :=
   match nth_error (writers s) w with
   | Some wr =>
@@ -190,11 +191,12 @@ Definition do_commit (s : st) (w : nat) : st :=
         match w_buf wr with
         | None => set_w (set_dir s ((w_key wr, w) :: dir s)) w (wr_status (wr_renamed wr) WCommitted)
         | Some b =>
-            let h := length (R.hs (dc s)) in
-            let '(c', r) := R.step (dc s) (R.Add (w_key wr)) in
+            let s0 := set_w s w (wr_status wr WCommitted) in
+            let h := length (R.hs (dc s0)) in
+            let '(c', r) := R.step (dc s0) (R.Add (w_key wr)) in
             match r with
             | Some (i, added) =>
-                let s1 := dc_apply s c' (if added then dval s ++ [b] else dval s) in
+                let s1 := dc_apply s0 c' (if added then dval s0 ++ [b] else dval s0) in
                 let s2 := if added then s1 else recycle s1 b in
                 set_w s2 w (wr_ps (wr_status wr WCommitted) (PStage 0 h i))
             | None => s
@@ -246,7 +248,7 @@ Definition do_pdone (s : st) (w : nat) : st :=
   match nth_error (writers s) w with
   | Some wr =>
       match w_ps wr with
-      | PStage 2 h i => set_w (dc_release s h) w (wr_ps wr PNone)
+      | PStage 2 h i => dc_release (set_w s w (wr_ps wr PNone)) h
       | _ => s
       end
   | None => s
@@ -345,14 +347,13 @@ Definition do_closer (s : st) (r : nat) : st :=
   match nth_error (readers s) r with
   | Some rd =>
       if r_open rd then
-        let s1 :=
-          match r_kind rd with
-          | RBuf _ _ h => dc_release s h
-          | RFd _ h => fc_release s h
-          | ROwn f false => close_fd s f
-          | ROwn f true => fd_put s (r_key rd) f
-          end in
-        set_readers s1 (R.upd (readers s1) r (rd_close rd))
+        let s0 := set_readers s (R.upd (readers s) r (rd_close rd)) in
+        match r_kind rd with
+        | RBuf _ _ h => dc_release s0 h
+        | RFd _ h => fc_release s0 h
+        | ROwn f false => close_fd s0 f
+        | ROwn f true => fd_put s0 (r_key rd) f
+        end
       else s
   | None => s
   end.
